@@ -33,7 +33,7 @@ Definition may (a : action) : list exn :=
   | SetDefaultErrorResponse | CopyHooks => []
   (* framework code that runs outside Request.run (environ parsing, iter() of the finalized body,
      string operations in the redirector): an ordinary Exception at worst *)
-  | Other | IterBody => [XException]
+  | Other | IterBody | ReadIterResponse => [XException]
   | NextChunk => XStopIteration :: all_exn
   | ServerNext | ServerCloseAgain => [XStopIteration]
   | _ => all_exn
